@@ -1,5 +1,7 @@
 import CkbVerif.Model.Cycles
+import CkbVerif.Model.Sched
 import CkbVerif.Lemmas.Cycles
+import CkbVerif.Lemmas.Sched
 
 /-!
 C05 — script verdict and cycle count do not depend on how execution is chunked.
@@ -26,6 +28,15 @@ continues the same trace): that part is observed by the harness, not proved — 
   `typeIdGroup` (cost from the source via the translator), so all statements cover TYPE_ID groups
 * `complete_budget_ge_eq_unlimited`, `complete_budget_lt_partial`: what `complete` does satisfy
 * `signal_budget_ge_eq_unlimited`: the signal path under ANY pause schedule with a sufficient budget
+* scheduler layer (`Model/Sched.lean`, an abstract deterministic state machine with whole-state
+  suspend/resume): `suspend_resume_same_trace_partial`, `state_chunked_eq_trace_chunked_partial`,
+  `state_chunked_total_eq_oneshot_partial` — IF an observation of the scheduler state (VMs with
+  memory, terminated_vms exit codes, pipes/fds, id counters) determines the next step and survives
+  `resume ∘ suspend`, THEN every chunked run through suspended states is the accounting model's
+  chunked run on the state's trace and, when it ends, reports the one-shot exit code and total; the
+  two hypotheses are about the real code and are observed by the harness (round-trip oracle), not
+  proved; `resume_forgetting_exit_codes_diverges`: a machine whose resume drops one observable
+  component (the parked exit code of a terminated child) breaks the conclusion
 * `complete_violates_budget` (finding F4), `signal_violates_budget` (finding F4b): the code as
   written does NOT satisfy `budget_lt_cost_fails` for `complete` and for the signal path — concrete
   witnesses, replayed on the real verifier by the harness (oracle classes
@@ -583,5 +594,97 @@ theorem signal_violates_budget :
 
 /-- without a pause the same call fails as it must -/
 example : signalVerify 2 [(⟨[1, 1, 1], 0⟩, [])] 0 = .error (.exceeded 2) := rfl
+
+/-! ### scheduler layer: what suspend / resume must preserve (partial: hypotheses about the real code) -/
+
+section Sched
+open CkbVerif.Sched
+
+variable {σ Susp O : Type}
+
+/-- **suspend_resume_same_trace_partial.** Assumed (about `script/src/scheduler.rs`, observed by the
+harness, NOT proved): an observation `R` of the scheduler state — instantiated and suspended VMs with
+their memory, `terminated_vms` exit codes, pipes / fds / inherited fds, id counters — (1) determines
+the next atomic step (`hd`) and (2) is preserved by `Scheduler::resume ∘ Scheduler::suspend` (`hrt`).
+Then a resumed scheduler continues exactly the trace (step costs and exit code) of the suspended
+one. This is the assumption "a resumed scheduler continues the same trace" of the accounting model,
+reduced to a state-level round-trip property. -/
+theorem suspend_resume_same_trace_partial (m : Machine σ Susp) (R : σ → O) (iterO : O → It O)
+    (hd : Determines m R iterO) (hrt : ∀ s, R (m.resume (m.suspend s)) = R s) (fuel : Nat) (s : σ) :
+    trace m fuel (m.resume (m.suspend s)) = trace m fuel s :=
+  trace_congr m R iterO hd fuel _ _ (hrt s)
+
+/-- **state_chunked_eq_trace_chunked_partial.** Under the same two hypotheses, for EVERY list of
+per-call limits the resumable API run on real states — each call `Scheduler::run(LimitCycles l)`,
+suspension into a `FullSuspendedState`, the next call on the resumed scheduler — consumes the same
+cycles and ends with the same exit code as the accounting model's `runSteps` chunks on the bare
+trace of the start state (`t`, `code`: the `Group` of `Model/Cycles.lean`). -/
+theorem state_chunked_eq_trace_chunked_partial (m : Machine σ Susp) (R : σ → O) (iterO : O → It O)
+    (hd : Determines m R iterO) (hrt : ∀ s, R (m.resume (m.suspend s)) = R s) (fuel : Nat) :
+    ∀ (ls : List Nat) (s : σ) (t : List Nat) (code : Int) (acc : Nat),
+      trace m fuel s = (t, some code) → driveS m fuel ls s acc = driveT code ls t acc := by
+  intro ls
+  induction ls with
+  | nil => intro s t code acc _; rfl
+  | cons l ls ih =>
+    intro s t code acc h
+    obtain ⟨e1, e2⟩ := runIt_eq_runSteps m fuel s t code l h
+    unfold driveS driveT
+    rcases hr : runIt m fuel s l with ⟨c, stop⟩
+    rw [hr] at e1 e2
+    simp only at e1 e2
+    subst e1
+    rcases e2 with ⟨a, b⟩ | ⟨a, s', b, c'⟩
+    · subst b
+      simp [a]
+    · subst b
+      have hne : (runSteps t l).2.isEmpty = false := by
+        cases hx : (runSteps t l).2 with
+        | nil => exact absurd hx a
+        | cons _ _ => rfl
+      simp only [hne]
+      have h' : trace m fuel (m.resume (m.suspend s')) = ((runSteps t l).2, some code) := by
+        rw [suspend_resume_same_trace_partial m R iterO hd hrt fuel s']; exact c'
+      simpa using ih (m.resume (m.suspend s')) (runSteps t l).2 code (acc + (runSteps t l).1) h'
+
+/-- **state_chunked_total_eq_oneshot_partial.** Under the same two hypotheses: whatever the limits,
+a chunked run through suspended states that ends reports the exit code of the uninterrupted run and
+exactly its cost (`t.sum` = the total the one-shot run reports). -/
+theorem state_chunked_total_eq_oneshot_partial (m : Machine σ Susp) (R : σ → O) (iterO : O → It O)
+    (hd : Determines m R iterO) (hrt : ∀ s, R (m.resume (m.suspend s)) = R s) (fuel : Nat)
+    (ls : List Nat) (s : σ) (t : List Nat) (code : Int) (acc n : Nat) (c : Int)
+    (h : trace m fuel s = (t, some code)) (hrun : driveS m fuel ls s acc = (n, some c)) :
+    c = code ∧ n = acc + t.sum := by
+  rw [state_chunked_eq_trace_chunked_partial m R iterO hd hrt fuel ls s t code acc h] at hrun
+  exact driveT_total code ls t acc n c hrun
+
+/-- a two-VM toy scheduler: state = (steps the parent still has to do, exit code of the child parked
+in `terminated_vms`); the parent's last step is `wait`, which exits with the parked code -/
+def toy (resume : Nat × Int → Nat × Int) : Machine (Nat × Int) (Nat × Int) where
+  iter := fun s => if s.1 = 0 then .exit s.2 else .next 5 (s.1 - 1, s.2)
+  suspend := id
+  resume := resume
+
+/-- non-vacuity: the faithful toy machine satisfies both hypotheses (the observation is the whole
+state), and a run in chunks of 7 cycles ends with the one-shot result: exit code 3, 15 cycles -/
+example : Determines (toy id) id (toy id).iter ∧ (∀ s, id ((toy id).resume ((toy id).suspend s)) = id s)
+    ∧ trace (toy id) 10 (3, 3) = ([5, 5, 5], some 3)
+    ∧ driveS (toy id) 10 [7, 7, 7, 7] (3, 3) 0 = (15, some 3) := by
+  refine ⟨?_, fun _ => rfl, by decide, by decide⟩
+  intro s
+  simp only [toy]
+  split <;> simp_all [It.map]
+
+/-- **resume_forgetting_exit_codes_diverges.** The round-trip hypothesis is needed: if `resume` forgets
+one observable component — here the exit code of an already terminated child, as if
+`terminated_vms` were not restored from the `FullSuspendedState` — the one-shot run ends with the
+child's code 0 after 15 cycles, while the same run in chunks of 7 cycles ends with another verdict. -/
+theorem resume_forgetting_exit_codes_diverges :
+    ∃ (m : Machine (Nat × Int) (Nat × Int)) (s : Nat × Int),
+      trace m 10 s = ([5, 5, 5], some 0) ∧ driveS m 10 [100] s 0 = (15, some 0) ∧
+      driveS m 10 [7, 7, 7, 7] s 0 = (15, some 5) :=
+  ⟨toy (fun s => (s.1, 5)), (3, 0), by decide, by decide, by decide⟩
+
+end Sched
 
 end CkbVerif.C05
